@@ -21,6 +21,7 @@ Record handle := mk_handle {
 (** a [Request] object created for a remote port-open request *)
 Inductive rlife :=
 | RListenQ (wait : bool)   (** in a listener queue *)
+| RPortQ                   (** in the receive queue of a port, inside a port message *)
 | RHeld                    (** taken by the listener / obtained from a receiver *)
 | RDropped                 (** dropped unanswered; the rejecter task has not sent its event yet *)
 | RAnswered.               (** Accepted/Rejected event queued *)
@@ -92,16 +93,34 @@ Fixpoint apply_effs (e : ep) (effs : list eff) : ep :=
             then e <| requests := insert (lr_remote r) (RListenQ (lr_wait r)) (requests e) |>
             else e <| requests := insert (lr_remote r) RDropped (requests e) |>
         | DropRequest rp => e <| requests := insert rp RDropped (requests e) |>
+        | PortRequests p rs =>
+            (* a receiver that is gone drops what is sent to it *)
+            let st := match lookup p (handles e) with
+                      | Some h => match h_rx h with Alive => RPortQ | _ => RDropped end
+                      | None => RDropped
+                      end in
+            e <| requests := fold_left (fun acc r => insert r st acc) rs (requests e) |>
         | ListenerClientDropped => e
         | DropNumber p => e <| alloc := del p (alloc e) |>
         end in
       apply_effs e1 r
   end.
 
+(** when the dispatcher ends (error, or Goodbye sent and received) its queues and reply cells are
+    dropped: every connect request still waiting observes [ChMux] -- or [Rejected] when the remote
+    listener is known to be gone ([client.rs], response task) *)
+Definition resolve_waiting (e : ep) : ep :=
+  e <| connects := map (fun x => match snd x with
+                                  | CWaiting => (fst x, CResolved (if remote_listener_dropped (mx e) then RListenerGone else RChMux))
+                                  | _ => x
+                                  end) (connects e) |>.
+
 Definition finish (e : ep) (o : outcome) : ep :=
   match o with
-  | Done m effs => apply_effs (e <| mx := m |>) effs
-  | Proto err effs => apply_effs e effs <| dead := Some err |>
+  | Done m effs =>
+      let e' := apply_effs (e <| mx := m |>) effs in
+      if goodbye_sent m && goodbye_received m then resolve_waiting e' else e'
+  | Proto err effs => resolve_waiting (apply_effs e effs <| dead := Some err |>)
   | Panic site => e <| panicked := Some site |>
   end.
 
@@ -198,8 +217,10 @@ Definition step_opt (e : ep) (a : act) : option ep :=
       match lookup p (handles e), lookup p (ports (mx e)) with
       | Some h, Some (Connected c) =>
           match h_rx h, rxq c with
-          | Alive, _ :: q =>
-              Some (e <| mx := mx e <| ports := insert p (Connected (c <| rxq := q |>)) (ports (mx e)) |> |>)
+          | Alive, (_, rs) :: q =>
+              (* the requests of a port message are handed to the caller *)
+              Some (e <| mx := mx e <| ports := insert p (Connected (c <| rxq := q |>)) (ports (mx e)) |> |>
+                      <| requests := fold_left (fun acc r => insert r RHeld acc) rs (requests e) |>)
           | _, _ => None
           end
       | _, _ => None
@@ -221,7 +242,18 @@ Definition step_opt (e : ep) (a : act) : option ep :=
       end
   | UDropRx p =>
       match lookup p (handles e) with
-      | Some h => match h_rx h with Alive => Some (set_handle e p (h <| h_rx := Dropped |>)) | _ => None end
+      | Some h =>
+          match h_rx h with
+          | Alive =>
+              (* the receive queue is dropped with the receiver, and with it the requests it holds *)
+              let queued := match lookup p (ports (mx e)) with
+                            | Some (Connected c) => flat_map snd (rxq c)
+                            | _ => []
+                            end in
+              Some (set_handle e p (h <| h_rx := Dropped |>)
+                      <| requests := fold_left (fun acc r => insert r RDropped acc) queued (requests e) |>)
+          | _ => None
+          end
       | None => None
       end
   | UDropTx p =>
@@ -229,7 +261,9 @@ Definition step_opt (e : ep) (a : act) : option ep :=
       | Some h => match h_tx h with Alive => Some (set_handle e p (h <| h_tx := Dropped |>)) | _ => None end
       | None => None
       end
-  | UTerminate => Some (e <| terminate_req := true |>)
+  | UTerminate =>
+      (* [terminate] is a method of [Client] and of [Listener] *)
+      if clients_alive e || listener_alive e then Some (e <| terminate_req := true |>) else None
   | NTx p =>
       match lookup p (handles e) with
       | Some h =>
